@@ -170,6 +170,47 @@ theorem sign_none (blake : Bytes → Bytes) (H : List Int → Option Nat) (key :
   subst hr hs
   simp only [sign, publicKey_eq, k_subOrder, mul_b8_nat, hH]
 
+/-- everything a successful `sign` tells us, for arbitrary `blake`, `H`, key and message -/
+theorem sign_ok_elim {blake : Bytes → Bytes} {H : List Int → Option Nat} {key : Bytes} {msg : ℤ}
+    {sig : Sig} (h : sign K blake H key msg = .ok sig) (r s : ℕ)
+    (hr : r = leToNat (blake ((blake key).drop 32 ++ bigIntLEBytes msg)) % I3.l)
+    (hs : s = skToBigInt blake key) :
+    ∃ hm, H [(coords (r • B8)).1, (coords (r • B8)).2, (coords (s • B8)).1, (coords (s • B8)).2,
+        msg] = some hm ∧
+      sig = ⟨coords (r • B8), ((r : ℤ) + (hm : ℤ) * ((s * 8 : ℕ) : ℤ)) % (I3.l : ℤ)⟩ := by
+  cases hH : H [(coords (r • B8)).1, (coords (r • B8)).2, (coords (s • B8)).1,
+      (coords (s • B8)).2, msg] with
+  | none => rw [sign_none blake H key msg r s hr hs hH] at h; cases h
+  | some hm =>
+    rw [sign_some blake H key msg r s hm hr hs hH] at h
+    exact ⟨hm, rfl, (Except.ok.inj h).symm⟩
+
+/-! ### the signing equation in the group -/
+
+theorem sigS_eq (r s hm : ℕ) :
+    ((r : ℤ) + (hm : ℤ) * ((s * 8 : ℕ) : ℤ)) % (I3.l : ℤ) =
+      (((r + hm * (s * 8)) % I3.l : ℕ) : ℤ) := by
+  push_cast
+  rfl
+
+theorem sigS_range (r s hm : ℕ) :
+    0 ≤ ((r : ℤ) + (hm : ℤ) * ((s * 8 : ℕ) : ℤ)) % (I3.l : ℤ) ∧
+      ((r : ℤ) + (hm : ℤ) * ((s * 8 : ℕ) : ℤ)) % (I3.l : ℤ) < (I3.l : ℤ) := by
+  rw [sigS_eq]
+  have := Nat.mod_lt (r + hm * (s * 8)) I3.l_prime.pos
+  omega
+
+/-- **completeness of the scheme in the group**: `S • B8 = r • B8 + (8 hm) • (s • B8)` for
+`S = (r + hm * 8 s) mod l`, because `l • B8 = 0` -/
+theorem sigS_nsmul (r s hm : ℕ) :
+    (((r : ℤ) + (hm : ℤ) * ((s * 8 : ℕ) : ℤ)) % (I3.l : ℤ)).toNat • B8 =
+      r • B8 + (8 * hm) • (s • B8) := by
+  rw [sigS_eq, Int.toNat_natCast, mod_l_nsmul_B8, add_nsmul, ← mul_nsmul']
+  congr 2
+  ring
+
+theorem l_lt_two_pow_256 : (I3.l : ℤ) < 2 ^ 256 := by decide +kernel
+
 /-! ### the two production hashes are total on the field and reject everything else -/
 
 theorem hPoseidon_total : HashTotal Inst.hPoseidon := by
